@@ -31,6 +31,37 @@ func Scenario(name string, seed uint64) TransferSpec {
 		ts.Datagrams = 30
 	case "S6": // tiny and empty streams
 		ts.Streams = []StreamSpec{{Bytes: 0, Reply: 0}, {Bytes: 1, Reply: 0}, {Bytes: 0, Reply: 1}, {Uni: true, Bytes: 0}}
+	case "S7": // many streams against small stream-count limits (run with ConnCase.SmallLimits): MAX_STREAMS has to arrive again and again
+		for i := 0; i < 30; i++ {
+			ts.Streams = append(ts.Streams, StreamSpec{Bytes: 6000, Reply: 3000})
+		}
+		for i := 0; i < 6; i++ {
+			ts.Streams = append(ts.Streams, StreamSpec{Bytes: 4000, Reply: 100, FromServer: true})
+		}
+		for i := 0; i < 8; i++ {
+			ts.Streams = append(ts.Streams, StreamSpec{Uni: true, Bytes: 2000, FromServer: i%2 == 1})
+		}
+	case "S8": // streams far larger than the (fixed, small) stream and connection windows (ConnCase.SmallLimits)
+		for i := 0; i < 6; i++ {
+			ts.Streams = append(ts.Streams, StreamSpec{Bytes: 60000, Reply: 40000, FromServer: i == 5})
+		}
+	case "S9": // one stream at a time (run with ConnCase.StreamLimit 1): every stream waits for the MAX_STREAMS of its predecessor
+		for i := 0; i < 12; i++ {
+			ts.Streams = append(ts.Streams, StreamSpec{Bytes: 1000, Reply: 1000, FromServer: i%3 == 2})
+		}
+		for i := 0; i < 6; i++ {
+			ts.Streams = append(ts.Streams, StreamSpec{Uni: true, Bytes: 500, FromServer: i%2 == 1})
+		}
+	case "S10": // abandoned streams: writers that reset after a prefix, readers that cancel; RESET_STREAM and STOP_SENDING have to get through
+		ts.Streams = []StreamSpec{
+			{Bytes: 60000, Reply: 2000, CancelWriteAt: 20000},
+			{Bytes: 60000, Reply: 2000, CancelReadAt: 10000},
+			{Uni: true, Bytes: 40000, CancelWriteAt: 15000, FromServer: true},
+			{Uni: true, Bytes: 40000, CancelReadAt: 5000},
+			{Bytes: 3000, Reply: 3000},
+			{Bytes: 50000, Reply: 100, CancelReadAt: 1, FromServer: true},
+			{Bytes: 50000, Reply: 100, CancelWriteAt: 1, FromServer: true},
+		}
 	default:
 		panic("unknown scenario " + name)
 	}
@@ -80,12 +111,12 @@ func FaultSuite(l *evlog.Log, clients []ClientSel, k1Scen []string, nFirst int, 
 	}
 	for _, cl := range clients {
 		for _, sc := range k1Scen {
-			add(&ConnCase{Name: fmt.Sprintf("clean/%s/%s/v2=%v", sc, cl.Client, cl.V2), Client: cl.Client, V2: cl.V2, Transfer: Scenario(sc, 1), Datagrams: sc == "S5"})
+			add(&ConnCase{Name: fmt.Sprintf("clean/%s/%s/v2=%v", sc, cl.Client, cl.V2), Client: cl.Client, V2: cl.V2, Transfer: Scenario(sc, 1), Datagrams: sc == "S5", SmallLimits: sc == "S7" || sc == "S8"})
 			for d := 0; d < 2; d++ {
 				for o := 0; o < nFirst; o++ {
 					for ki, a := range kinds {
 						add(&ConnCase{Name: fmt.Sprintf("k1/%s/%s/v2=%v/d%d-o%d-f%d", sc, cl.Client, cl.V2, d, o, ki), Client: cl.Client, V2: cl.V2,
-							Schedule: simworld.Schedule{Faults: []simworld.Fault{{Dir: wiretap.Dir(d), Ordinal: o, Action: a}}}, Transfer: Scenario(sc, uint64(idx)), Datagrams: sc == "S5"})
+							Schedule: simworld.Schedule{Faults: []simworld.Fault{{Dir: wiretap.Dir(d), Ordinal: o, Action: a}}}, Transfer: Scenario(sc, uint64(idx)), Datagrams: sc == "S5", SmallLimits: sc == "S7" || sc == "S8"})
 					}
 				}
 			}
@@ -111,7 +142,7 @@ func FaultSuite(l *evlog.Log, clients []ClientSel, k1Scen []string, nFirst int, 
 			}
 		}
 	}
-	scen := []string{"S1", "S2", "S3", "S4", "S5", "S6"}
+	scen := []string{"S1", "S2", "S3", "S4", "S5", "S6", "S7", "S8", "S10"}
 	rng := l.Rand("faultsuite")
 	for _, nk := range []struct{ k, n int }{{2, nK2}, {3, nK3}} {
 		for i := 0; i < nk.n; i++ {
@@ -130,7 +161,7 @@ func FaultSuite(l *evlog.Log, clients []ClientSel, k1Scen []string, nFirst int, 
 				}
 			}
 			add(&ConnCase{Name: fmt.Sprintf("k%d/%s/%s/v2=%v/%04d", nk.k, sc, cl.Client, cl.V2, i), Client: cl.Client, V2: cl.V2, Schedule: simworld.Schedule{Faults: fs},
-				Transfer: Scenario(sc, rng.Uint64()), Datagrams: sc == "S5", Retry: retry, ServerCIDLen: []int{0, 0, 4, 8, 20}[rng.IntN(5)]})
+				Transfer: Scenario(sc, rng.Uint64()), Datagrams: sc == "S5", SmallLimits: sc == "S7" || sc == "S8", Retry: retry, ServerCIDLen: []int{0, 0, 4, 8, 20}[rng.IntN(5)]})
 			// a third of the schedules on a slow path: round-trip times around and above the initial PTO make
 			// the endpoints retransmit spuriously, so that retransmissions meet the next encryption level
 			if rtts := []int{10, 10, 10, 10, 120, 250, 400, 700}; true {
@@ -154,7 +185,7 @@ func FaultSuite(l *evlog.Log, clients []ClientSel, k1Scen []string, nFirst int, 
 			r.PDrop, r.PDup, r.PDelay, r.PCorrupt = p/4, p/4, p/4, p/4
 		}
 		cc := &ConnCase{Name: fmt.Sprintf("rate/%s/%s/v2=%v/%04d", sc, cl.Client, cl.V2, i), Client: cl.Client, V2: cl.V2, Schedule: simworld.Schedule{Rate: r},
-			Transfer: Scenario(sc, rng.Uint64()), Datagrams: sc == "S5", Retry: rng.IntN(5) == 0}
+			Transfer: Scenario(sc, rng.Uint64()), Datagrams: sc == "S5", SmallLimits: sc == "S7" || sc == "S8", Retry: rng.IntN(5) == 0}
 		cc.RTTms = []int{1, 10, 10, 50, 200}[rng.IntN(5)]
 		cc.ConnIdx = idx
 		idx++
